@@ -439,7 +439,7 @@ func c22Post(p *fw.Parent) {
 
 func init() {
 	fw.Register(&fw.Check{
-		ID: "C22",
+		ID:   "C22",
 		Rule: "every text is written to disk (c.Note) and then given to compiler.Compile under one of 6 Params vectors. Families (by case index): all shipped grammars (parsers/*/*.tm, compiler/testdata/*.tm, *.tmerr raw and with markers stripped) unmodified under every Params vector; synthetic grammars = one of 6 valid skeletons (expression, json, templates/flags, lookaheads+error recovery, event/AST fields, lexer-only with start conditions) plus 0-6 feature fragments (options, named sets, cyclic named sets, %input lists, lookaheads on nullable/recursive/self/mutual nonterminals, flags/templates, hostile names, lexer rules/patterns/start conditions/classes, random rules, inline, precedence, inject/interface, arrows/fields, deep nesting, long lines, extend/opt suffix, lalr(k), templates section, semantic actions) used legitimately (hostility 0) or misused (hostility 15-100); token-level mutations through the real tm lexer (delete, duplicate, swap, replace, insert, range delete/duplicate, splice between grammars, rename); byte-level mutations (bit flip, hostile byte, insertion, range deletion, truncation, invalid UTF-8, CRLF/CR, BOM, joined lines, duplicated chunk); fragments grafted into shipped grammars. Oracle: no panic/exit/CPU blow-up; tm.SyntaxError{Offset,Endoffset,Line} and every status.Error origin must satisfy 0<=Offset<=EndOffset<=len(text), Line==1+count('\\n' before Offset), Column==Offset-index of last '\\n' before Offset (bytes, 1-based), recomputed by scanning the text. A text is non-trivial (distinct key = text hash) when it passes the syntax stage (compiles or returns status diagnostics)",
 		Assumptions: []string{
 			"a syntax error is judged on the tm.SyntaxError value that Compile returns (offset, end offset, line; it has no column); status.FromError on it yields a zero Origin, which is not judged here",
